@@ -425,6 +425,7 @@ def run_case_impl(case, route="grad"):
         flat = out_t
     r.out = flat.detach().double()
     r.out_dtype = str(flat.dtype).replace("torch.", "")
+    r.dtype = case["dtype"]
     r.rec = rec
     if route == "grad":
         gs = torch.autograd.grad(flat, ts, grad_outputs=c, allow_unused=True)
@@ -686,14 +687,18 @@ def row_scales(case, M, li, i_rows, blockwise):
     return out
 
 
+TINY = {"float64": 2.2250738585072014e-308, "float32": 1.1754943508222875e-38}
+
+
 def ulp_floor(r, li, nrows, dim):
     """round-off floor measured on the real code (single Functions only): 8 x the change of the gradient when every input
     entry moves to a neighbouring floating-point number.  No comparison can ask for more than the implementation's own
     sensitivity to 1-ulp input changes; unlike a magnitude factor it is specific to the entry."""
+    tiny = 64 * TINY.get(getattr(r, "dtype", "float64"), 0.0)      # gradual underflow of the dtype
     fl = getattr(r, "floor", None)
     if fl is None or fl[li] is None:
-        return [[0.0] * dim for _ in range(nrows)]
-    return fl[li].reshape(-1, dim).tolist()
+        return [[tiny] * dim for _ in range(nrows)]
+    return [[v + tiny for v in row] for row in fl[li].reshape(-1, dim).tolist()]
 
 
 def measure_floor(case, r, n_jitter=2):
@@ -1671,7 +1676,7 @@ def run(ctx: Ctx):
     run_views(ctx)
     # seeded part
     run_local(ctx, ctx.pick(1, 8))
-    run_prog(ctx, ctx.pick(130, 2200))
+    run_prog(ctx, ctx.pick(110, 1700))
     run_routes(ctx, ctx.pick(16, 240))
 
 
